@@ -398,5 +398,18 @@ def c_findMatching(chk):
         chk.vc(f"findMatching.tolerances.{i}", p.pc, And(Eq(r["xtol"], real("atol")), Eq(r["rtol"], real("rtol"))), func=fn)
     if min(n.values()) == 0:
         chk.undecided.append(f"findMatching: path classes missing {n}")
+    # the closure that re-evaluates the upper end of the v+ bracket: the shock front sits at the wall when
+    # v+ vw = cs^2 of the phase IN FRONT of the wall at T+ (an exact matching is only missed if this is wrong)
+    vpT = real("vpTry")
+
+    def env(it):
+        hy = make_hydro()
+        return {"self": hy, "vwTry": vw}, {"hy": hy}
+    for k, q in enumerate(sel(chk.summarize_closure(MODULE, "Hydrodynamics.findMatching", "solveVpmax", env,
+                                                    lambda it, cap: ([vpT], {}), registry=reg))):
+        Tp_ = specfun("mdh_Tp")(vw, vpT)
+        chk.vc(f"findMatching.solveVpmax.front-at-wall-condition.{k}", q.pc + [Gt(vw, 0)],
+               Eq(q.value, vpT - H["csq"](Tp_) / vw), func=fn + ".<solveVpmax>")
+        chk.canary(f"findMatching.solveVpmax.{k}", q.pc + [Gt(vw, 0)], Eq(q.value, vpT + H["csq"](Tp_) / vw), func=fn + ".<solveVpmax>")
     chk.canary("findMatching.dispatch", sel(paths)[0].pc, Le(vw, vJ) if n["det"] and "matchDeton" in
                [e.get("name") for e in sel(paths)[0].events] else Gt(vw, vJ), func=fn)
